@@ -157,7 +157,31 @@ func report(e *Engine, results []*funcResult, prop, tier, outDir string, verbose
 	for _, u := range unsupported {
 		n := "unverifiable:" + u
 		order = append(order, n)
-		failedNames[n] = []*Oblig{{Name: n, Kind: "unsupported", Result: "unsupported"}}
+		fn := u
+		if i := strings.Index(u, ": "); i >= 0 {
+			fn = u[:i]
+		}
+		failedNames[n] = []*Oblig{{Name: n, Func: fn, Kind: "unsupported", Result: "unsupported"}}
+	}
+	// A function that is only a callee for this property (its contract carries tags, none of them this property)
+	// reports its untagged obligations (panic freedom, frames, core clauses) under its own properties, not here.
+	var notRelevant []string
+	if prop != "" {
+		var kept []string
+		for _, n := range order {
+			o := failedNames[n][0]
+			base := o.Func
+			if i := strings.Index(base, "+"); i >= 0 {
+				base = base[:i]
+			}
+			ct := e.spec.Contracts[o.Func]
+			if ct != nil && len(ct.Props) > 0 && !ct.Props[prop] && len(o.Tags) == 0 {
+				notRelevant = append(notRelevant, n)
+				continue
+			}
+			kept = append(kept, n)
+		}
+		order = kept
 	}
 	sort.Strings(order)
 	label := prop
@@ -214,6 +238,14 @@ func report(e *Engine, results []*funcResult, prop, tier, outDir string, verbose
 		}
 	}
 	extra := map[string]any{}
+	if len(notRelevant) > 0 {
+		extra["failed_obligations_reported_under_other_properties"] = notRelevant
+		if verbose {
+			for _, n := range notRelevant {
+				fmt.Printf("not reported here (belongs to the function's own properties): %s\n", n)
+			}
+		}
+	}
 	if tier == "thorough" {
 		a, u, d := 0, 0, 0
 		for _, r := range results {
